@@ -65,7 +65,10 @@ def spec_source(tier):
     def fn(rng):
         i = state["n"]
         state["n"] += 1
-        return U.synth_spec(rng, **fixed[i]) if i < len(fixed) else U.synth_spec(rng)
+        spec = U.synth_spec(rng, **fixed[i]) if i < len(fixed) else U.synth_spec(rng)
+        if spec is not None and i % 3 == 1:
+            spec["meta"]["reverse_nodes"] = True   # (every third reaction with its interaction nodes numbered from the last decay on)
+        return spec
 
     return fn
 
